@@ -199,7 +199,14 @@ int mantis_ctr_init(MantisCTR_t *ctr)
     ctr->vtable = vtable;
 
     /* Initialize the CTR mode context */
-    return (*(vtable->init))(ctr);
+    if (!(*(vtable->init))(ctr)) {
+        /* Out of memory: leave the control block inert so that cleanup
+           and every other function fail safely on it */
+        ctr->vtable = 0;
+        ctr->ctx = 0;
+        return 0;
+    }
+    return 1;
 }
 
 void mantis_ctr_cleanup(MantisCTR_t *ctr)
